@@ -1311,104 +1311,3 @@ Section TableParallel.
   Qed.
 End TableParallel.
 
-(* a concrete instance: 3 variables (static order 0, 1, 2), 3 base states, rows (var, base, value, dst, cost):
-     x0: 0 -0-> 0 (+3)   0 -1-> 1 (+2)   0 -2-> 2 (+1)
-     x1: 0 -0-> 0 (+0)   1 -0-> 1 (+0)   2 -0-> 2 (+0)
-     x2: 0 -0-> 0 (+0)   1 -0-> 1 (+5)   2 -0-> 2 (+0)
-   optimum 7 (x0 = 1).  Width 1: the restricted diagram of the root says 3, the relaxed one 8; the cut-set of the root is
-   A = ([0], 3, ub 8), B = ([1], 2, ub 7), C = ([2], 1, ub 6); the optimum lives under B.  The root costs 6 polls. *)
-Definition ex3_ti : tinst := {|
-  t_nvars := 3; t_nbase := 3; t_init := 0; t_initval := 0; t_slack := 0; t_rubkind := 0; t_domkind := 0;
-  t_usevalue := false; t_ncoord := 0; t_order := [0; 1; 2]%nat;
-  t_trans := [ (0%nat, 0, 0, 0, 3); (0%nat, 0, 1, 1, 2); (0%nat, 0, 2, 2, 1);
-               (1%nat, 0, 0, 0, 0); (1%nat, 1, 0, 1, 0); (1%nat, 2, 0, 2, 0);
-               (2%nat, 0, 0, 0, 0); (2%nat, 1, 0, 1, 5); (2%nat, 2, 0, 2, 0) ];
-  t_notimp := []; t_rub := []; t_key := []; t_coords := []; t_mergekind := 0; t_pos := []; t_up := [] |}.
-
-Example ex3_wf : t_wf ex3_ti 5.
-Proof. apply t_wfb_spec. vm_compute. reflexivity. Qed.
-Example ex3_opt : opt_enum (t_problem ex3_ti) = Some 7.
-Proof. vm_compute. reflexivity. Qed.
-
-(* cutoff 7: the first compilation after the root is cut at its first poll *)
-Definition ex3_cfg (cutoff : nat) : @sconfig tstate := tb_sconfig ex3_ti CleanLEL false false false 1 cutoff.
-(* 3 workers.  Worker 0 processes the root (7 transitions); workers 0, 1, 2 take A, B, C; worker 2 then worker 1 start
-   compiling and are cut (both sit at PAbort); worker 2 then worker 1 run abort_search; the rest follows the default
-   policy (worker 0's compilation is cut as well: a third abort_search) *)
-Definition ex3_sched : list nat := [0;0;0;0;0;0;0; 0;1;2; 2;1; 2;1]%nat.
-
-Definition pc_tag {St} (p : @pc St) : nat :=
-  match p with
-  | PGetWork => 0 | PParked => 1 | PReadLb1 _ => 2 | PUpdate1 _ _ _ => 3 | PReadLb2 _ => 4 | PUpdate2 _ _ _ => 5
-  | PEnqueue _ _ _ => 6 | PAbort _ => 7 | PNotify _ _ => 8 | PExited => 9
-  end.
-Definition held_ub {St} (p : @pc St) : option Z := option_map (@sp_ub St) (busy_node p).
-(* the state after k transitions of the run: (pcs, bounds of the nodes held, upper_bounds, abort flag, best_lb, best_ub) *)
-Definition ex3_after (k : nat) :=
-  let '(s, _, _) := par_run tstate_eqb (ex3_cfg 7) k (init_pstate tstate_eqb (ex3_cfg 7) 3 3 None) ex3_sched None [] in
-  (map pc_tag (p_workers s), map held_ub (p_workers s), p_upper_bounds s, p_abort s, p_lb s, p_ub s).
-
-(* two different workers are at PAbort at the same time (the situation finding D3 was about) *)
-Example ex3_two_workers_at_abort :
-  ex3_after 12 = ([2; 7; 7]%nat, [Some 8; Some 7; Some 6], [8; 7; 6], false, 3, IMAX).
-Proof. vm_compute. reflexivity. Qed.
-
-(* worker 2 aborts first: its own node C has bound 6 < 7 = optimum (the optimum is under B, held by worker 1); the
-   repaired abort_search takes the maximum with upper_bounds[0] = 8 and upper_bounds[1] = 7 *)
-Example ex3_first_abort : ex3_after 13 = ([2; 7; 8]%nat, [Some 8; Some 7; Some 6], [8; 7; 6], true, 3, 8).
-Proof. vm_compute. reflexivity. Qed.
-(* the second abort_search (worker 1) takes a maximum with the previous best_ub: the bound is kept *)
-Example ex3_second_abort : ex3_after 14 = ([2; 8; 8]%nat, [Some 8; Some 7; Some 6], [8; 7; 6], true, 3, 8).
-Proof. vm_compute. reflexivity. Qed.
-
-Definition ex3_result := par_maximize tstate_eqb (ex3_cfg 7) 200 3 3 None ex3_sched.
-
-Example ex3_run :
-  (pr_end ex3_result, pr_exact ex3_result, pr_crash ex3_result, pr_lb ex3_result, pr_ub ex3_result, pr_value ex3_result)
-    = (PFinished, false, false, 3, 8, Some 3) /\
-  filter (fun e => match snd e with SAbortSearch => true | _ => false end) (pr_trace ex3_result)
-    = [(2%nat, SAbortSearch); (1%nat, SAbortSearch); (0%nat, SAbortSearch)].
-Proof. vm_compute. split; reflexivity. Qed.
-
-Example ex3_chk : par_chk tstate_eqb (ex3_cfg 7) 200 3 None ex3_sched = true.
-Proof. vm_compute. reflexivity. Qed.
-
-(* the theorem applies to this run (the inequalities come from the theorem, not from the computation) ... *)
-Example ex3_by_theorem :
-  pr_crash ex3_result = false /\ pr_lb ex3_result <= 7 <= pr_ub ex3_result /\
-  (forall v, pr_value ex3_result = Some v ->
-     exists sol, pr_sol ex3_result = Some (sort_by dec_var_cmp sol) /\ MddProgress.feasible (t_problem ex3_ti) sol v).
-Proof.
-  destruct (C05_parallel_table_instances ex3_ti 5 ex3_wf CleanLEL (or_introl eq_refl) 1 (le_n 1) 7 3 200 ex3_sched
-              (le_S _ _ (le_S _ _ (le_n 1))) ex3_chk) as (A1 & A2 & A3 & A4 & A5 & A6).
-  split; [exact A1|]. split; [exact (A3 7 ex3_opt)|].
-  intros v Hv. destruct (A5 v Hv) as (_ & sol & S1 & _ & S3). exists sol. auto.
-Qed.
-(* ... and it is not vacuous: the run aborted, lb = 3 < optimum = 7 <= ub = 8 *)
-Example ex3_strict : pr_exact ex3_result = false /\ pr_lb ex3_result < 7 /\ 7 <= pr_ub ex3_result /\ pr_ub ex3_result < IMAX.
-Proof. vm_compute. repeat split; discriminate || reflexivity. Qed.
-
-(* the theorem also speaks of runs stopped by the fuel, e.g. right after the first abort_search *)
-Example ex3_out_of_fuel :
-  let r := par_maximize tstate_eqb (ex3_cfg 7) 13 3 3 None ex3_sched in
-  pr_end r = POutOfFuel /\ pr_lb r <= 7 <= pr_ub r.
-Proof.
-  split; [vm_compute; reflexivity|].
-  assert (Hchk : par_chk tstate_eqb (ex3_cfg 7) 13 3 None ex3_sched = true) by (vm_compute; reflexivity).
-  destruct (C05_parallel_table_instances ex3_ti 5 ex3_wf CleanLEL (or_introl eq_refl) 1 (le_n 1) 7 3 13 ex3_sched
-              (le_S _ _ (le_S _ _ (le_n 1))) Hchk) as (_ & _ & A3 & _).
-  exact (A3 7 ex3_opt).
-Qed.
-
-(* the instance of TableWf.v (optimum 12): cutoff 5 stops the root during its relaxed compilation, after the restricted
-   one has found 12; the run is not exact, and best_ub = isize::MAX (the root's own bound) *)
-Example ex_ti_abort :
-  let r := par_maximize tstate_eqb (tb_sconfig ex_ti CleanLEL false false false 1 5) 200 2 2 None [] in
-  (pr_end r, pr_exact r, pr_lb r, pr_ub r) = (PFinished, false, 12, IMAX) /\ pr_lb r <= 12 <= pr_ub r.
-Proof.
-  split; [vm_compute; reflexivity|].
-  assert (Hchk : par_chk tstate_eqb (tb_sconfig ex_ti CleanLEL false false false 1 5) 200 2 None [] = true) by (vm_compute; reflexivity).
-  destruct (C05_parallel_table_instances ex_ti 7 ex_wf CleanLEL (or_introl eq_refl) 1 (le_n 1) 5 2 200 []
-              (le_S _ _ (le_n 1)) Hchk) as (_ & _ & A3 & _).
-  exact (A3 12 ex_opt).
-Qed.
